@@ -33,16 +33,24 @@ def owned_random(seed=0):
     old_u = getattr(CR, 'urandom', None)
     CR.get_random_bytes = drbg
     CR.urandom = drbg          # _UrandomRNG.read() (Random.new().read) looks this name up at call time
-    # modules that did `from Cryptodome.Random import get_random_bytes`
-    import ndn.security.tpm.tpm as tpm_mod
-    old_tpm = tpm_mod.get_random_bytes
-    tpm_mod.get_random_bytes = drbg
+    # modules that did `from Cryptodome.Random import get_random_bytes` hold the original function: replace it by identity
+    # in every loaded module of the library
+    import sys as _sys
+    patched = []
+    for mname, mod in list(_sys.modules.items()):
+        if mod is None or not (mname == 'ndn' or mname.startswith('ndn.')):
+            continue
+        for attr, val in list(vars(mod).items()):
+            if val is old:
+                patched.append((mod, attr))
+                setattr(mod, attr, drbg)
     try:
         yield drbg
     finally:
         CR.get_random_bytes = old
         CR.urandom = old_u
-        tpm_mod.get_random_bytes = old_tpm
+        for mod, attr in patched:
+            setattr(mod, attr, old)
 
 
 import time as _time_mod
@@ -72,9 +80,10 @@ def pub_der(name: str) -> bytes:
 @contextlib.contextmanager
 def fixed_now(iso='2024-02-29T12:00:00+00:00'):
     """Own the wall clock inside ndn.app_support.security_v2 (self_sign / sign_req read it): whichever standard call the module
-    uses - datetime.now / utcnow / today / fromtimestamp(time.time()), time.time, time.time_ns - answers the same instant."""
+    uses - datetime.now / utcnow / today under any import style, time.time, time.time_ns - answers the same instant."""
     import datetime as _dt
-    import time as _time
+    import types
+    import mc
     import ndn.app_support.security_v2 as sv2
     instant = _dt.datetime.fromisoformat(iso)
     epoch = instant.timestamp()
@@ -91,19 +100,31 @@ def fixed_now(iso='2024-02-29T12:00:00+00:00'):
         @classmethod
         def today(cls):
             return instant.replace(tzinfo=None)
-    old = getattr(sv2, 'datetime', None)
-    old_mod = getattr(sv2, 'dt', None)
-    if old is not None and isinstance(old, type):
-        sv2.datetime = FixedDateTime
-    g_time, g_ns = _time.time, _time.time_ns
-    patched_time = g_time is _REAL_TIME           # an enclosing owned_env already owns time.time: leave it alone
-    if patched_time:
-        _time.time = lambda: epoch
-        _time.time_ns = lambda: int(epoch * 1e9)
+
+    proxy = types.ModuleType('datetime')
+    proxy.__dict__.update({k: v for k, v in vars(_dt).items() if not k.startswith('__')})
+    proxy.datetime = FixedDateTime
+    patched = []
+    for attr, val in list(vars(sv2).items()):
+        if val is _dt.datetime:
+            patched.append((attr, val))
+            setattr(sv2, attr, FixedDateTime)
+        elif val is _dt:
+            patched.append((attr, val))
+            setattr(sv2, attr, proxy)
+
+    class _Clock:
+        @staticmethod
+        def time():
+            return epoch
+    prev = mc.CUR.get('clock')
+    own_clock = prev is None            # an enclosing owned_env already owns the clock: leave it alone
+    if own_clock:
+        mc.CUR['clock'] = _Clock
     try:
         yield instant
     finally:
-        if old is not None and isinstance(old, type):
-            sv2.datetime = old
-        if patched_time:
-            _time.time, _time.time_ns = g_time, g_ns
+        for attr, val in patched:
+            setattr(sv2, attr, val)
+        if own_clock:
+            mc.CUR['clock'] = prev
